@@ -4,6 +4,7 @@ import Orx.IW.FullLoops
 import Orx.GenThms.ProtoSimBuf
 import Orx.GenThms.Loops
 import Orx.KSLoops
+import Orx.GenThms.Surface
 /-! # C12 for_each / enumerate_for_each / fold visit every element exactly once -/
 namespace Orx.Props.C12
 open Orx Orx.KS
@@ -197,5 +198,28 @@ example : (match (Loops.for_each 5 ⟨3⟩ 2 {} : PF Unit Unit) with
   decide
 
 end SourceLoops
+
+section Surface
+open Orx.GenThms.Surface
+
+/-- **the loops of every kind are the translated default functions**: no implementor of `ConcurrentIter` overrides `for_each`,
+`enumerate_for_each` or `fold` (each defines the six required methods only), and there are exactly the seven implementors -/
+theorem source_loops_are_the_trait_defaults_for_every_kind :
+    (implementors.all fun x => (fnsOf "ConcurrentIter" x).length == 1 &&
+      (fnsOf "ConcurrentIter" x).all (sameSet requiredConcurrentIter)) = true ∧
+    sameSet (implsOf "ConcurrentIter") implementors = true ∧
+    fnsOf "trait" "ConcurrentIter" = [["into_seq_iter", "next_id_and_value", "next_chunk", "buffered_iter", "next", "values",
+      "ids_and_values", "skip_to_end", "for_each", "enumerate_for_each", "fold", "try_get_len", "has_more"]] :=
+  Orx.GenThms.Surface.concurrent_iter_defaults_are_not_overridden
+
+/-- … and the single pulls they make are the trait's default `fetch_one` -/
+theorem source_loops_pull_through_the_trait_default :
+    (implementors.all fun x => (fnsOf "AtomicIter" x).length == 1 &&
+      (fnsOf "AtomicIter" x).all (sameSet requiredAtomicIter)) = true ∧
+    sameSet (implsOf "AtomicIter") implementors = true ∧
+    fnsOf "trait" "AtomicIter" = [["counter", "progress_and_get_begin_idx", "get", "fetch_one", "fetch_n", "early_exit"]] :=
+  Orx.GenThms.Surface.atomic_iter_defaults_are_not_overridden
+
+end Surface
 
 end Orx.Props.C12
